@@ -1,13 +1,11 @@
-mod alloc;
+//! `vhc`: harness for property C18 (gap cursors). A separate crate from `vh` because the cursor
+//! API only exists with cargo feature `experimental_cursor`, which switches redb to the
+//! `experimental-api-5` signatures (`range` takes a `KeyRange`, ...).
+#![allow(dead_code)]
 mod backend;
-mod history;
-mod image;
-mod mm;
+mod cursor;
 mod out;
-mod pure;
 mod rng;
-mod table;
-mod xxh;
 
 pub struct Args {
     pub cmd: String,
@@ -22,7 +20,7 @@ pub struct Args {
 fn parse_args() -> Args {
     let mut it = std::env::args().skip(1);
     let cmd = it.next().unwrap_or_else(|| {
-        eprintln!("usage: vh <cmd> --seed N --tier quick|thorough --out ops --summary json [--replay f]");
+        eprintln!("usage: vhc cursor --seed N --tier quick|thorough --out ops --summary json [--replay f]");
         std::process::exit(2)
     });
     let mut a = Args { cmd, seed: 1, thorough: false, out: "ops.txt".into(), summary: "summary.json".into(), replay: None, extra: vec![] };
@@ -42,12 +40,7 @@ fn parse_args() -> Args {
 fn main() {
     let args = parse_args();
     match args.cmd.as_str() {
-        "alloc" => alloc::run(&args),
-        "pure" => pure::run(&args),
-        "table" => table::run(&args),
-        "xxh" => xxh::run(&args),
-        "mm" => mm::run(&args),
-        "history" => history::run(&args),
+        "cursor" => cursor::run(&args),
         other => {
             eprintln!("unknown command {other}");
             std::process::exit(2);
